@@ -605,6 +605,8 @@ def judge_world(wcase, wres, stats):
 
 def judge_case(case, res, stats):
     fails = []
+    if res.get("harness_exc") == "PROCESS-UNCONFIRMED-TIMEOUT":
+        return []
     if "harness_exc" in res:
         return [f"worker could not run the case: {res['harness_exc']}: {res.get('harness_msg')}"]
     ok = {}
@@ -635,6 +637,9 @@ def judge_case(case, res, stats):
 
 
 # ---------------------------------------------------------------- main
+_CONFIRMED = [0]
+
+
 def run_impl_cases(cases, tag):
     nw = min(cm.NCPU, max(1, len(cases) // 6))
     chunks = [cases[i::nw] for i in range(nw)]
@@ -646,7 +651,16 @@ def run_impl_cases(cases, tag):
             for i, x in zip(idxs, rr["result"]["results"]):
                 out[i] = x
         else:
-            singles = cm.run_impl_parallel(PID, "c06", [dict(cases=[c]) for c in ch], timeout=240, tag=tag + "_iso")
+            # a worker died or ran out of time: isolate the cases; a time-out is only believed after the case
+            # has been re-run ALONE with a generous limit (a busy machine or a cold numba cache is not a verdict)
+            singles = cm.run_impl_parallel(PID, "c06", [dict(cases=[c]) for c in ch], timeout=300, tag=tag + "_iso")
+            for j, s1 in enumerate(singles):
+                if s1["status"] == "timeout":
+                    if _CONFIRMED[0] >= 3:          # three confirmed hangs are a verdict; do not spend hours
+                        singles[j] = dict(status="unconfirmed-timeout", rc=None, log="")
+                        continue
+                    _CONFIRMED[0] += 1
+                    singles[j] = cm.run_impl(PID, "c06", dict(cases=[ch[j]]), timeout=900, tag=tag + "_alone")
             for i, s in zip(idxs, singles):
                 if s["status"] == "ok":
                     out[i] = s["result"]["results"][0]
@@ -709,7 +723,7 @@ def run(tier, seed, replay=None):
     bad = []
     for c, r in zip(cases, results):
         if c.get("stream") == "beyond":
-            if "harness_exc" in r:
+            if "harness_exc" in r and r["harness_exc"] != "PROCESS-UNCONFIRMED-TIMEOUT":
                 R.corr_broken.append(f"worker error on a beyond-stream case: {r['harness_exc']} {r.get('harness_msg')}")
             continue
         f = judge_case(c, r, stats)
